@@ -34,6 +34,10 @@ class SW:
         self.zero_prm = None        # name of a parameter that is exactly 0 for the first item of the first label dimension
         if grid == "unit":              # the concrete grid 0, 1, 2, ... (ages are numbers: a fixed lifetime's indicator is exactly 0 or 1)
             self.x = [rat(i) + sh for i in range(n_t)]
+        elif grid == "uneven-unit-span":   # concrete and UNEVEN, yet last - first == n - 1 (what a "consecutive years" test on the end points sees)
+            from fractions import Fraction as _F
+            base = [_F(0), _F(1, 2)] + [_F(i) for i in range(2, n_t)]
+            self.x = [rat(v) + sh for v in base]
         elif grid == "ten-year":        # the concrete grid 0, 10, 20, ...: every interval is ten years long
             self.x = [rat(10 * i) + sh for i in range(n_t)]
         elif grid == "equidistant":       # x0, x0+h, x0+2h, ...: every interval has the same (symbolic, positive) length
